@@ -526,10 +526,13 @@ pub async fn check_message(s: &mut Session, bytes: &[u8], prefer_text: bool, obs
 		}
 	}
 	// (whatever the class: a message that names a subscribe / unsubscribe method is served by the WebSocket transport only)
-	let names_subscription = parse_strict(String::from_utf8_lossy(bytes).as_bytes()).ok().and_then(|j| match j.get("method") {
-		Some(J::Str(m)) => Some(matches!(expected_payload(m, None), Payload::Bound)),
-		_ => None,
-	}) == Some(true);
+	// (found with a forgiving reading: invalid UTF-8 replaced, blanks of any ASCII kind in front dropped; as a last
+	// resort the plain text of the names)
+	let lossy = String::from_utf8_lossy(bytes).to_string();
+	let names_subscription = match parse_strict(lossy.trim_start_matches(|c: char| c.is_ascii_whitespace() || c == '\u{b}').as_bytes()) {
+		Ok(j) => matches!(j.get("method"), Some(J::Str(m)) if matches!(expected_payload(m, None), Payload::Bound)),
+		Err(_) => ["unsub_a", "unsub_b", "unsub_r", "\"sub_a\"", "\"sub_b\"", "\"sub_r\""].iter().any(|n| lossy.contains(n)),
+	};
 	let skip_equivalence = names_subscription
 		|| matches!(&class, Class::Call { method, .. } if matches!(expected_payload(method, None), Payload::Skip | Payload::Bound))
 		|| (is_batch && (find(bytes, b"sub_").is_some() || find(bytes, b"gated_").is_some()));
